@@ -112,10 +112,16 @@ Section Fresh.
     induction fuel as [|k IH]; intros n; cbn [notify_name_change]; [apply fp_panic|].
     eapply fp_bind; [apply fp_gets|intros p _]. eapply fp_bind with (Q := fun _ => True).
     - generalize (pn_refs p) as l. induction l as [|[r nm] rest IHl]; [apply fp_ret; exact I|].
-      eapply fp_bind; [apply fp_gets|intros fr _]. destruct (fr_parent fr); [|apply fp_panic].
-      eapply fp_bind; [apply fp_gets|intros pfr _]. eapply fp_bind; [apply fp_backend|intros _ _; exact IHl].
-    - intros _ _. generalize (pn_kids p) as l. induction l as [|[nm c] rest IHl]; [apply fp_ret; exact I|]. eapply fp_bind; [apply IH|intros _ _; exact IHl].
+      eapply fp_bind; [apply fp_gets|intros fr _]. destruct (0 <? fr_refs fr)%Z; [|exact IHl].
+      eapply fp_bind; [apply fp_incref|intros _ _]. destruct (fr_parent fr); [|apply fp_panic].
+      eapply fp_bind; [apply fp_gets|intros pfr _]. eapply fp_bind; [apply fp_backend|intros _ _].
+      eapply fp_bind; [exact IHl|intros hs _; apply fp_ret; exact I].
+    - intros h1 _. eapply fp_bind with (Q := fun _ => True); [|intros h2 _; apply fp_ret; exact I].
+      generalize (pn_kids p) as l. induction l as [|[nm c] rest IHl]; [apply fp_ret; exact I|].
+      eapply fp_bind; [apply IH|intros a _]. eapply fp_bind; [exact IHl|intros b _; apply fp_ret; exact I].
   Qed.
+  Lemma fp_dec_all l : fp (dec_all l) (fun _ => True).
+  Proof. induction l as [|r t IH]; cbn [dec_all]; [apply fp_ret; exact I|]. eapply fp_bind; [apply fp_dec_ref_|intros _ _; exact IH]. Qed.
   Lemma fp_rename_child_to f old target new : fp (rename_child_to f old target new) (fun _ => True).
   Proof.
     unfold rename_child_to. eapply fp_bind; [apply fp_gets|intros ffr _]. eapply fp_bind; [apply fp_gets|intros tfr _].
@@ -124,7 +130,7 @@ Section Fresh.
       eapply fp_bind; [apply fp_gets|intros fr _]. eapply fp_bind; [fpk|intros _ _]. eapply fp_bind; [fpk|intros _ _]. eapply fp_bind; [fpk|intros _ _].
       eapply fp_bind; [fpk|intros _ _]. eapply fp_bind with (Q := fun _ => True); [destruct (fr_parent fr); [apply fp_dec_ref_|apply fp_panic]|intros _ _]. fpk.
     - intros o _. destruct o; [|apply fp_ret; exact I]. eapply fp_bind; [fpk|intros _ _].
-      eapply fp_bind; [apply fp_gets|intros fuel _; apply fp_notify_name_change].
+      eapply fp_bind; [apply fp_gets|intros fuel _]. eapply fp_bind; [apply fp_notify_name_change|intros held _; apply fp_dec_all].
   Qed.
 
   Definition wres_fresh (x : res (list N * refid * bval)) : Prop := match x with inl _ => True | inr (_, nr, _) => n0 <= nr end.
@@ -164,7 +170,7 @@ Section Fresh.
     intros Hr. unfold insert_fid. eapply fp_bind; [apply fp_gets|intros o _]. eapply fp_bind; [apply fp_incref|intros _ _].
     eapply fp_bind with (Q := fun _ => True); [|intros _ _; destruct o; [apply fp_dec_ref_|apply fp_ret; exact I]].
     intros w o0 w' [H1 H2] E. inversion E; subst; cbn. split; [|auto]. split; [exact H1|].
-    intros k x Hk. destruct (keyb k (c, f)) eqn:Ek.
+    intros k x Hk. cbn [w_st st_fids put_fids] in Hk. destruct (keyb k (c, f)) eqn:Ek.
     - apply keyb_eq in Ek. subst k. rewrite tlookup_tset_same in Hk. inversion Hk; subst. right; exact Hr.
     - rewrite tlookup_tset_other in Hk by exact Ek. auto.
   Qed.
@@ -173,7 +179,7 @@ Section Fresh.
     unfold delete_fid. eapply fp_bind; [apply fp_gets|intros o _]. destruct o; [|apply fp_ret; exact I].
     eapply fp_bind with (Q := fun _ => True); [|intros _ _; apply fp_dec_ref].
     intros w o0 w' [H1 H2] E. inversion E; subst; cbn. split; [|auto]. split; [exact H1|].
-    intros k x Hk. destruct (keyb k (c, f)) eqn:Ek.
+    intros k x Hk. cbn [w_st st_fids put_fids] in Hk. destruct (keyb k (c, f)) eqn:Ek.
     - apply keyb_eq in Ek. subst k. rewrite tlookup_tdel_same in Hk. discriminate.
     - rewrite tlookup_tdel_other in Hk by exact Ek. auto.
   Qed.
@@ -200,7 +206,7 @@ Section Fresh.
     - destruct (fr_parent fr); [|fpk]. eapply fp_bind; [fpk|intros pfr _]. eapply fp_bind; [fpk|intros pdel _]. destruct pdel; [fpk|].
       eapply fp_bind; [fpk|intros old _]. destruct (_ && _); [fpk|]. eapply fp_bind; [fpk|intros [v e] _]. destruct (is_err e); [fpk|].
       eapply fp_bind; [apply fp_rename_child_to|intros _ _; fpk].
-    - eapply fp_bind; [fpk|intros [len e] _]. destruct (is_err e); [fpk|]. destruct (_ <? _); [fpk|].
+    - eapply fp_bind with (Q := fun _ => True); [fpk|intros [len e] _]. destruct (is_err e); [fpk|]. match goal with |- fp (if ?b then _ else _) _ => destruct b end; [fpk|].
       eapply fp_bind; [apply fp_new_ref|intros nr Hnr]. eapply fp_bind; [fpk|intros _ _]. eapply fp_bind; [apply fp_insert_fid; exact Hnr|intros _ _; fpk].
   Qed.
 
